@@ -1,5 +1,6 @@
 import SecsModel.Drv.Util
 import SecsModel.Model.SecsI
+-- DRIVER-DOMAIN: secsi
 /-! Driver domain `secsi`. -/
 namespace SecsModel.Drv.SecsI
 open SecsModel SecsModel.Drv SecsModel.Model.SecsI
